@@ -151,3 +151,35 @@ SPEC_ENTRY = {
   '  stalled (s_c s) /\\ s_delivered s = [42; 43; 44]\n'
   '  /\\ dev_can_fill (c_rxq (s_c s)) (s_d s) [45] = false.\n'
   'Proof. exact stall_reachable. Qed.']}
+
+
+# ---------------------------------------------------------------------------------------------------------------------
+# appended: the console monitors (Extract/ConsoleIO.v mon_step, kinds 1550..1560) are proved to mean what they stand for
+# (Proofs/ConsoleMonProofs.v)
+SPEC_ENTRY['imports'] += ['Extract.QueueIO', 'Extract.ConsoleIO', 'Proofs.ConsoleMonProofs']
+SPEC_ENTRY['theorems'] += [
+ ('C15_monitor_stream_meaning', 'Proofs/ConsoleMonProofs.v', 'mon_run_stream',
+  'THE STREAM, for ANY list of monitor lines whose verdicts are all true: unread before ++ bytes written by the device (1551) = bytes taken by the caller (1552 consuming, 1553) ++ unread after; every taking line takes a prefix of what is unread: nothing lost, duplicated or reordered'),
+ ('C15_monitor_stream_meaning_init', 'Proofs/ConsoleMonProofs.v', 'mon_run_stream_init', 'from the start of a scenario: written = taken ++ m_q'),
+ ('C15_monitor_1550_meaning', 'Proofs/ConsoleMonProofs.v', 'mon1550_meaning', 'a receive buffer is posted only when everything written has been handed over and no other buffer is posted; the device then sees exactly one'),
+ ('C15_monitor_1551_meaning', 'Proofs/ConsoleMonProofs.v', 'mon1551_meaning', 'the device wrote 1..4096 bytes into a posted buffer'),
+ ('C15_monitor_1552_meaning', 'Proofs/ConsoleMonProofs.v', 'mon1552_meaning', 'bytes handed to the caller: at least one, the NEXT bytes of the stream'),
+ ('C15_monitor_1553_meaning', 'Proofs/ConsoleMonProofs.v', 'mon1553_meaning', 'consume(amt) returned: amt <= unread, exactly amt bytes skipped'),
+ ('C15_monitor_1554_meaning', 'Proofs/ConsoleMonProofs.v', 'mon1554_meaning', 'fill_buf returned exactly the unread bytes, at least one'),
+ ('C15_monitor_1555_meaning', 'Proofs/ConsoleMonProofs.v', 'mon1555_meaning', 'data reported available exactly when something is unread'),
+ ('C15_monitor_1556_meaning', 'Proofs/ConsoleMonProofs.v', 'mon1556_meaning', 'a send that returned Ok: the device read exactly the caller\'s bytes from one readable element'),
+ ('C15_monitor_1556_decodes', 'Proofs/ConsoleMonProofs.v', 'mon1556_decodes', None),
+ ('C15_monitor_1557_meaning', 'Proofs/ConsoleMonProofs.v', 'mon1557_meaning', 'available index - used index (mod 2^16) is 0 or 1'),
+ ('C15_monitor_1558_1560_meaning', 'Proofs/ConsoleMonProofs.v', 'mon1558_meaning', 'the blocking receive / the send was not found waiting in vain and returned Ok'),
+ ('C15_monitor_1559_meaning', 'Proofs/ConsoleMonProofs.v', 'mon1559_meaning', 'after recv(pop) of a byte: exactly one buffer posted if that was the last byte written, none otherwise'),
+ ('C15_monitor_unknown_kind', 'Proofs/ConsoleMonProofs.v', 'mon_step_unknown_kind', 'no other kind is ever accepted'),
+ ('C15_monitor_1557_holds_of_model', 'Proofs/ConsoleMonProofs.v', 'mon1557_holds_of_model', 'monitor 1557 holds at every point of every history from every start of the indices (from C15_one_buffer_any_index)'),
+ ('C15_monitor_1559_holds_of_model', 'Proofs/ConsoleMonProofs.v', 'mon1559_holds_of_model', 'monitor 1559 holds after every recv(pop) of the model that hands out a byte, from ANY invariant state (both branches; from C15_buffer_comes_back and the invariant)'),
+ ('C15_monitor_recv_lines_hold_of_model', 'Proofs/ConsoleMonProofs.v', 'mon_recv_lines_hold', 'recv (peek / pop) of the model: its 1555 and 1552 lines are accepted and the monitor stays in step (Sim)'),
+ ('C15_monitor_read_ready_line_holds_of_model', 'Proofs/ConsoleMonProofs.v', 'mon_read_ready_line_holds', None),
+ ('C15_monitor_ack_keeps_sim', 'Proofs/ConsoleMonProofs.v', 'mon_ack_keeps_sim', None),
+ ('C15_monitor_consume_line_holds_of_model', 'Proofs/ConsoleMonProofs.v', 'mon_consume_line_holds', None),
+ ('C15_monitor_fill_line_holds_of_model', 'Proofs/ConsoleMonProofs.v', 'mon_fill_line_holds', 'a chunk delivered between two calls: line 1551 accepted (the posted bit included), Sim and Posted kept'),
+ ('C15_monitor_read_lines_hold_of_model_partial', 'Proofs/ConsoleMonProofs.v', 'mon_read_lines_hold',
+  'read(n > 0) that returned: after the 1551 line of a chunk delivered during the wait (if any) its 1552 line is accepted, Sim kept. PARTIAL: the posted-bit conjunct of that in-wait 1551 line and the 1550 line of the buffer posted by poll_retrieve are not covered'),
+ ('C15_monitor_fill_buf_lines_hold_of_model_partial', 'Proofs/ConsoleMonProofs.v', 'mon_fill_buf_lines_hold', 'the same for fill_buf and its 1554 line')]
